@@ -52,6 +52,56 @@ def fl(a):
   return [float(x) for x in numpy.asarray(a, dtype=float).ravel()]
 
 
+def observe_view(v, inp):
+  """the arrays of a view object that the models consume (observe_at of C12), as they are NOW"""
+  out = {}
+  def nn(a):
+    return [None if x != x else float(x) for x in numpy.asarray(a, dtype=float).ravel()]
+  if inp["opt_ix"]:
+    k = len(inp["opt_ix"])
+    out["opt"] = dict(values=fl2(v.points_sampled_for_af_values, k), lie=fl(v.scaled_optimized_lie_values),
+                      vars=fl2(v.points_sampled_for_af_value_vars, k), thr=nn(v.optimized_metrics_thresholds))
+  if inp["con_ix"]:
+    k = len(inp["con_ix"])
+    out["con"] = dict(values=fl2(v.points_sampled_for_pf_values, k), lie=fl(v.scaled_constraint_lie_values),
+                      vars=fl2(v.points_sampled_for_pf_value_vars, k), thr=nn(v.constraint_thresholds))
+  return out
+
+
+def make_endpoint_view(inp):
+  """A live view object of a concrete endpoint class over a 2-D double domain, built from a whole request (the request object is returned too)."""
+  from libsigopt.aux.adapter_info_containers import DomainInfo, GPModelInfo, MetricsInfo, PointsContainer
+  m = inp["m"]
+  vals = numpy.array(inp["vals"], dtype=float).reshape(-1, m)
+  n = len(vals)
+  rs = numpy.random.RandomState(inp["seed"])
+  req = dict(
+    tag={}, task_options=[], num_to_sample=inp.get("num_to_sample", 2), max_simultaneous_af_points=1000,
+    domain_info=DomainInfo(constraint_list=[], domain_components=[dict(var_type="double", elements=(0, 1)), dict(var_type="double", elements=(-1, 3))]),
+    metrics_info=MetricsInfo(requires_pareto_frontier_optimization=len(inp["opt_ix"]) == 2, observation_budget=inp["budget"], user_specified_thresholds=list(inp["thr"]),
+                             objectives=list(inp["objs"]), optimized_metrics_index=list(inp["opt_ix"]), constraint_metrics_index=list(inp["con_ix"])),
+    points_sampled=PointsContainer(points=numpy.column_stack((rs.uniform(0, 1, n), rs.uniform(-1, 3, n))), values=vals,
+                                   value_vars=numpy.array(inp["vars"], dtype=float).reshape(-1, m), failures=numpy.array(inp["fails"], dtype=bool)),
+    points_being_sampled=PointsContainer(points=numpy.column_stack((rs.uniform(0, 1, inp["n_open"]), rs.uniform(-1, 3, inp["n_open"])))))
+  ep = inp["endpoint"]
+  if ep == "spe":
+    from libsigopt.views.rest.spe_next_points import SPENextPoints as V
+  elif ep == "spe_search":
+    from libsigopt.views.rest.spe_search_next_points import SPESearchNextPoints as V
+  else:
+    from libsigopt.aux.constant import PARALLEL_CONSTANT_LIAR
+    from libsigopt.compute.misc.constant import NONZERO_MEAN_CONSTANT_MEAN_TYPE
+    hp = dict(alpha=1.0, length_scales=[[0.3], [1.2]], tikhonov=1e-6, task_length=None)
+    req.update(parallelism=PARALLEL_CONSTANT_LIAR,
+               model_info=GPModelInfo(hyperparameters=[dict(hp) for _ in range(m)], max_simultaneous_af_points=1000,
+                                      nonzero_mean_info=dict(mean_type=NONZERO_MEAN_CONSTANT_MEAN_TYPE, poly_indices=None), task_selection_strategy=None))
+    if ep == "gp":
+      from libsigopt.views.rest.gp_next_points_categorical import GpNextPointsCategorical as V
+    else:
+      from libsigopt.views.rest.search_next_points import SearchNextPoints as V
+  return V(req), req
+
+
 def fl2(a, m):
   a = numpy.asarray(a, dtype=float)
   return [[float(x) for x in r] for r in a.reshape(-1, m)]
@@ -99,18 +149,7 @@ def run_impl(kind, inp):
     return out
   if kind == "view":
     v = make_view(vals, numpy.array(inp["vars"], dtype=float).reshape(-1, m), fails, inp["objs"], inp["opt_ix"], inp["con_ix"], inp["thr"])
-    out = {}
-    def nn(a):
-      return [None if x != x else float(x) for x in numpy.asarray(a, dtype=float).ravel()]
-    if inp["opt_ix"]:
-      k = len(inp["opt_ix"])
-      out["opt"] = dict(values=fl2(v.points_sampled_for_af_values, k), lie=fl(v.scaled_optimized_lie_values),
-                        vars=fl2(v.points_sampled_for_af_value_vars, k), thr=nn(v.optimized_metrics_thresholds))
-    if inp["con_ix"]:
-      k = len(inp["con_ix"])
-      out["con"] = dict(values=fl2(v.points_sampled_for_pf_values, k), lie=fl(v.scaled_constraint_lie_values),
-                        vars=fl2(v.points_sampled_for_pf_value_vars, k), thr=nn(v.constraint_thresholds))
-    return out
+    return observe_view(v, inp)
   raise ValueError(kind)
 
 
@@ -376,6 +415,11 @@ def oracle(kind, inp):
                 oracle="closed-form statement of the property in plain Python")
   try:
     with numpy.errstate(all="ignore"):
+      if kind == "served":
+        import warnings
+        with warnings.catch_warnings():
+          warnings.simplefilter("ignore")   # qmcpy's advice about digital nets
+          return served_oracle(inp, fail)
       out = run_impl(kind, inp)
   except Exception as e:
     return dict(signature=f"C12:{kind}:raises:{type(e).__name__}", what=f"{kind} raised {type(e).__name__}: {e}", input=dict(kind=kind, **inp),
@@ -425,6 +469,14 @@ def oracle(kind, inp):
       if r:
         return fail(r[0], dict(metric=k, detail=r[1]), out)
     return None
+  return view_laws(inp, out, fail)
+
+
+def view_laws(inp, out, fail):
+  """the laws of C12 on the preprocessed arrays of a view (values, lie, variances, thresholds per optimised / constraint metric)"""
+  m, vals, fails = inp["m"], inp["vals"], inp["fails"]
+  n = len(vals)
+  col = lambda a, k: [r[k] for r in a]
   # view: the arrays the models consume
   for key, ix in (("opt", inp["opt_ix"]), ("con", inp["con_ix"])):
     if not ix:
@@ -466,6 +518,78 @@ def oracle(kind, inp):
         if r_[j] < 1e-10 * (1 - 1e-12):
           return fail("preprocessed variance below the minimum variance", 1e-10, out)
   return None
+
+
+def served_oracle(inp, fail):
+  """A history on a LIVE view object of a concrete endpoint: construct it from a whole request, inspect, let it serve the request (view()), inspect, serve
+  again, inspect.  The arrays the models consume (observe_at of C12) obey the laws at every inspection, they are still - bit for bit - the ones computed at
+  construction (nothing a served request does may write into them: aliasing), and the request's own data is untouched."""
+  import random as pyrandom
+  v, req = make_endpoint_view(inp)
+  pc = req["points_sampled"]
+  snap = [numpy.array(a, copy=True) for a in (pc.points, pc.values, pc.value_vars, pc.failures)]
+  out0 = observe_view(v, inp)
+  stage = "after construction"
+  at = lambda what, expected, observed: fail(what, expected, dict(stage=stage, arrays=observed, at_construction=out0))
+  r = view_laws(inp, out0, at)
+  if r:
+    return r
+  for call in range(1, inp["calls"] + 1):
+    numpy.random.seed((inp["seed"] + call) % (2 ** 32))
+    pyrandom.seed(inp["seed"] + call)
+    stage = f"after call #{call} of view()"
+    try:
+      v.view()
+    except Exception as e:   # whether the endpoint can serve this request is not C12's clause (e.g. the search view refuses fewer than 10 observations)
+      stage += f" (which raised {type(e).__name__})"
+    out = observe_view(v, inp)
+    r = view_laws(inp, out, at)
+    if r:
+      return r
+    if out != out0:
+      return at("the preprocessed arrays of the view changed while it served a request", out0, out)
+    if any(not (a.shape == b.shape and bool(numpy.array_equal(a, b, equal_nan=True))) for a, b in zip(snap, (pc.points, pc.values, pc.value_vars, pc.failures))):
+      return at("the request data was modified while the view served it", None, out)
+  return None
+
+
+def gen_served(rng, endpoint=None):
+  """A whole request for a concrete endpoint (past its initialisation phase most of the time): one optimised metric with 0-2 constraint metrics, two optimised
+  metrics, or constraint metrics only (search endpoints); thresholds INSIDE the range of the successful values, so that some successful observations violate
+  them; some reported failures; real floats of several magnitudes and offsets."""
+  ep = endpoint or rng.choice(["spe"] * 11 + ["spe_search"] * 4 + ["gp"] * 3 + ["search"] * 2)
+  n = rng.randint(12, 30)
+  if ep in ("spe_search", "search"):
+    n_opt, n_con = 0, rng.randint(1, 2)
+  else:
+    n_opt = rng.choice([1, 1, 1, 2])
+    n_con = rng.choice([0, 1, 1, 2]) if n_opt == 1 else rng.choice([0, 0, 1])
+  m = n_opt + n_con
+  cols = []
+  for _ in range(m):
+    mag = 10.0 ** rng.choice([-3, 0, 0, 1, 2, 4])
+    off = rng.choice([0.0, 0.0, 50.0, -5.0, 1e3]) * rng.choice([1.0, mag])
+    cols.append([off + mag * rng.uniform(-1, 1) for _ in range(n)])
+  fails = [rng.random() < rng.choice([0.0, 0.1, 0.25]) for _ in range(n)]
+  if sum(not f for f in fails) < 8:
+    fails = [False] * n
+  perm = list(range(m))
+  rng.shuffle(perm)
+  opt_ix, con_ix = perm[:n_opt], perm[n_opt:]
+  objs = [rng.choice(["minimize", "maximize"]) for _ in range(m)]
+  thr = []
+  for k in range(m):
+    ok = sorted(x for x, f in zip(cols[k], fails) if not f)
+    if k in con_ix or (n_opt == 2 and rng.random() < 0.5):
+      q = rng.choice([0.15, 0.3, 0.5]) if objs[k] == "maximize" else rng.choice([0.5, 0.7, 0.85])   # a quantile: 15-50 % of the successes violate it
+      thr.append(ok[int(q * (len(ok) - 1))] + 1e-3 * (ok[-1] - ok[0]))
+    else:
+      thr.append(None)
+  nsucc = sum(not f for f in fails)
+  budget = rng.choice([nsucc, 2 * nsucc, 3 * nsucc, 5 * nsucc, 100])
+  return "served", dict(m=m, vals=[[cols[k][r] for k in range(m)] for r in range(n)], vars=[[rng.choice([0.0, 1e-4, 1e-2]) * 1.0 for _ in range(m)] for _ in range(n)],
+                        fails=fails, objs=objs, opt_ix=opt_ix, con_ix=con_ix, thr=thr, endpoint=ep, budget=budget, n_open=rng.choice([0, 0, 1, 2]),
+                        calls=2, seed=rng.randint(0, 2 ** 31 - 1))
 
 
 def gen_float_case(rng):
@@ -531,6 +655,17 @@ def search(ctx, hints, broken):
   budget = ctx.n(1500, 25000) * (3 if broken else 1)
   rng = ctx.rng
   sigs = set(f["signature"] for f in fails)
+  # histories on live view objects of the concrete endpoints: construct, inspect, serve, inspect, serve again, inspect
+  for ep, cnt in (("spe", ctx.n(25, 250)), ("spe_search", ctx.n(10, 80)), ("gp", ctx.n(3, 24)), ("search", ctx.n(2, 12))):
+    for _ in range(cnt):
+      kind, inp = gen_served(rng, ep)
+      if ep in ("gp", "search"):
+        inp["calls"] = 1
+      n += 1
+      r = oracle(kind, inp)
+      if r and r["signature"] not in sigs:
+        sigs.add(r["signature"])
+        fails.append(r)
   for t in range(budget):
     kind, inp = gen_case(rng) if t % 3 == 0 else gen_float_case(rng)
     n += 1
@@ -540,7 +675,8 @@ def search(ctx, hints, broken):
       fails.append(r)
       if len(fails) >= 3:
         break
-  return dict(evaluations=n, failures=fails, oracle="closed-form order / inverse / span / variance / lie laws in plain Python, no library or model code")
+  return dict(evaluations=n, failures=fails, oracle="closed-form order / inverse / span / variance / lie laws in plain Python, no library or model code; on live view objects "
+                                                      "of the concrete endpoints the laws are re-evaluated after every served request and the arrays deep-compared with their state at construction")
 
 
 def replay(ctx, payload):
@@ -567,3 +703,10 @@ DESIGN_REF = "DESIGN.md section 7, C12"
 LEVEL_TEXT += ("; the searcher states the variance inverse law at every magnitude: whenever variance * (measured value scale)^2 is above the floor in force (1e-10, or 1e-6 in skip "
                "mode), undo_scaling_variances(relative_objective_variance(w)) = w to 1e-6 relative, on variances commensurate with the metric (standard deviations of 1e-6 .. 1 of the "
                "spread of the non-failed values, spreads 1e-12 .. 1e100) as well as on absolute ones")
+
+# --- gap round (seeded C12_m12): additions to the claimed level
+LEVEL_TEXT += ("; histories on LIVE view objects (searcher): a view of a concrete endpoint (spe_next_points, spe_search_next_points, gp_next_points_categorical, search_next_points) is built "
+               "from a whole request - one optimised metric with constraint metrics and thresholds that successful observations violate, two optimised metrics, constraint metrics only - , "
+               "inspected, made to serve the request, inspected, made to serve it again, inspected: at every inspection the laws hold on the arrays the models consume, the arrays are bit for "
+               "bit the ones computed at construction (aliasing: nothing a served request does may write into them) and the request's data is untouched")
+LEVEL_NOTE += "; aliasing between a view's preprocessed arrays and what its endpoints hand out is decided by run-time deep comparison (not modelled)"
